@@ -638,12 +638,12 @@ func (cy *vCycle) assertC05() {
 		}
 		if moved && reportedInSync {
 			zzv.Cover("c05.moved")
+			// the source's list after the cycle (posted, or unchanged and therefore not re-posted)
+			// says in_transfer
 			srcMarked := false
 			for i, s := range cy.shards {
-				if _, ok := cy.snap[i][h]; ok && s.inSync() && s.nPosted > 0 {
-					if t, ok := s.posted[h]; ok {
-						srcMarked = zzv.Or(srcMarked, t.TargetState == target.StateInTransfer)
-					}
+				if _, ok := cy.snap[i][h]; ok && s.inSync() {
+					srcMarked = zzv.Or(srcMarked, cy.stateAfter(i, h) == "moving")
 				}
 			}
 			zzv.Assert("C05.i.source.marked", srcMarked)
